@@ -57,6 +57,7 @@ type cmafIngester struct {
 	asset          *asset
 	repsData       []cmafRepData
 	nextSegTrigger chan struct{}
+	done           chan struct{} // closed when the ingester has stopped
 	state          ingesterState
 	report         []string
 }
@@ -179,6 +180,7 @@ func (cm *cmafIngesterMgr) NewCmafIngester(req CmafIngesterSetup) (nr uint64, er
 		repsData:       repsData,
 		state:          ingesterStateNotStarted,
 		nextSegTrigger: make(chan struct{}),
+		done:           make(chan struct{}),
 	}
 	if c.dur != nil {
 		// Round up so that the segments sent cover the full duration
@@ -225,6 +227,7 @@ func (c *cmafIngester) start(ctx context.Context) {
 
 	defer func() {
 		c.state = ingesterStateStopped
+		close(c.done)
 	}()
 
 	// Finally we should send off the init segments
@@ -442,8 +445,15 @@ func (c *cmafIngester) start(ctx context.Context) {
 	//
 }
 
-func (c *cmafIngester) triggerNextSegment() {
-	c.nextSegTrigger <- struct{}{}
+// triggerNextSegment triggers sending of the next segment.
+// It returns an error if the ingester has stopped.
+func (c *cmafIngester) triggerNextSegment() error {
+	select {
+	case c.nextSegTrigger <- struct{}{}:
+		return nil
+	case <-c.done:
+		return fmt.Errorf("CMAF ingester has stopped")
+	}
 }
 
 func (c *cmafIngester) dest() string {
